@@ -122,6 +122,15 @@ def run(tier):
         for text in (nm + rg, f"Gal(b1-4){nm}{rg}", f"{nm}{rg}(a2-3)Gal(b1-4)Glc"):
             cases.append((text, None, {"unknown-residue"}))
             ring_cases += 1
+    # a residue written with two sugar codes (grammatical: saci+) of which the second is not a size names no monosaccharide
+    codes = ["Glc", "Man", "Gal", "Fuc", "Unk", "Neu", "Kdo", "Xyl", "Ara", "Fru", "Rha", "GlcNAc", "Ido", "Qui"]
+    for _ in range(8 if tier == "quick" else 80):
+        a_, b_ = r.sample(codes, 2)
+        b_ = b_.replace("NAc", "")
+        tail = r.choice(["", "", "NAc", "6S"])
+        for text in (a_ + b_ + tail, f"Gal(b1-4){a_}{b_}{tail}", f"{a_}{b_}{tail}(a1-4)Gal", f"Man(a1-3)[Gal(b1-4){a_}{b_}{tail}(b1-6)]Man"):
+            if orc.drv.call("accepts", text) == "1":
+                cases.append((text, None, {"unknown-residue"}))
     reqs, meta = [], []
     for ci, (text, stripped, obs) in enumerate(cases):
         for full in (True, False):
@@ -194,7 +203,7 @@ def run(tier):
                     {"no_failing_input": True, "what_no_longer_checks": broken, "theorems": names_thm})
     report.assumptions = ["unsupported modification tokens = FG literals of Glycan.g4 that functional_groups does not define (recomputed per run), and positions beyond the carbon chain",
                           "tree_only=True is exempt by the property"]
-    extra = {"ring_form_cases": ring_cases, "rule": "random glycans in which a random subset of residues ('Unk', or a ring-form letter for which the library has no row of that sugar: Neuf, Olif, ...), modifications (grammar tokens without chemistry, positions beyond the chain), linkages ('?') is made unrealisable, optionally with a detached {fragment}; both values of full; non-trivial = at least one obstacle",
+    extra = {"ring_form_cases": ring_cases, "rule": "random glycans in which a random subset of residues ('Unk', a ring-form letter for which the library has no row of that sugar: Neuf, Olif, ..., or two sugar codes in one residue: GlcMan, GalUnk), modifications (grammar tokens without chemistry, positions beyond the chain), linkages ('?') is made unrealisable, optionally with a detached {fragment}; both values of full; non-trivial = at least one obstacle",
              "unsupported_tokens": unsup, "conversions": len(reqs),
              "print_assumptions": res.assumptions.get(f"Props/{PROP}.v", "").strip().splitlines()[-4:]}
     return report.finish("proof", ob, dis, names_thm, trusted=C.TRUSTED, extra=extra)
